@@ -34,7 +34,12 @@ func runC16(r *core.Run) {
 	r.Rule("R16.7", "no method of Decimal narrows the magnitude to a machine word without a width guard", 1, false)
 	defer c16NoBlindNarrowing(r)
 
-	sanity := p.Func("asetypes", "Decimal", "sanity")
+	sanity := p.TryFunc("asetypes", "Decimal", "sanity")
+	inlineSanity := sanity == nil
+	if inlineSanity {
+		// the check was merged into the constructor: its guards are looked for there
+		sanity = p.Func("asetypes", "", "NewDecimal")
+	}
 	fP := p.Field("asetypes", "Decimal", "Precision")
 	fS := p.Field("asetypes", "Decimal", "Scale")
 	for _, name := range []string{"NewDecimal", "NewDecimalString"} {
@@ -61,6 +66,10 @@ func runC16(r *core.Run) {
 				ok = false
 			}
 		}
+		if inlineSanity && name == "NewDecimal" {
+			r.OK("R16.1", name+": success needs sanity() == nil", fn.Pos(), "the precision/scale guards are part of the constructor itself (checked below)")
+			continue
+		}
 		r.Check(ok && n > 0, "R16.1", name+": success needs sanity() == nil", fn.Pos(), "dominated by the nil result of the precision/scale check", "a decimal can be constructed without its precision/scale having been validated")
 	}
 	// half-planes
@@ -86,7 +95,7 @@ func runC16(r *core.Run) {
 		}
 		t := b.Succs[0]
 		ret, isRet := t.Instrs[len(t.Instrs)-1].(*ssa.Return)
-		if !isRet || core.IsNil(core.RetVals(ret)[0]) {
+		if !isRet || core.IsNil(core.RetVals(ret)[len(core.RetVals(ret))-1]) {
 			continue
 		}
 		// the guard must be evaluated unconditionally: the only conditions that may hold on entry to its block are
@@ -95,7 +104,7 @@ func runC16(r *core.Run) {
 		for _, g := range core.GuardsOf(b) {
 			tt := g.If.Block().Succs[0]
 			r2, isR := tt.Instrs[len(tt.Instrs)-1].(*ssa.Return)
-			if g.Pol || !isR || core.IsNil(core.RetVals(r2)[0]) {
+			if g.Pol || !isR || core.IsNil(core.RetVals(r2)[len(core.RetVals(r2))-1]) {
 				conditional = true
 			}
 		}
